@@ -37,8 +37,8 @@ claim("C06", "other",
   "abstract interpretation + loop-shape recognition + printer/scanner constant agreement", "DESIGN.md section 3 C06")
 
 claim("C07", "other",
-  "Sound sufficient condition for set-semantics and monotonicity of the allowed list: independent construction of allowed nodes (S1), only permutation/compaction before use (S3), the allowed nodes occur in the derived verdict formula only as the domain of one positive existential (S2), the caller's list is only read (S4), spacing cannot reach the parser (W1).",
-  "Residual not decided: that the in-place compaction in sortAndDedup never drops the last copy of a node; case re-spelling is C09. Assumes purity of the pair matcher (C13).",
+  "Sound sufficient condition for set-semantics and monotonicity of the allowed list: independent construction of allowed nodes (S1), only permutation/compaction before use (S3), the allowed nodes occur in the derived verdict formula only as the domain of one positive existential (S2), the caller's list is only read (S4), spacing cannot reach the parser (W1), letter case is canonicalised before any comparison (K0-K3).",
+  "S3 follows the node slice through every function it reaches and requires the compaction to drop an element only when its canonical text equals its neighbour's; the letter-case clause is decided by the canonicalisation chain K0-K3 (same rules as C09); the matcher-purity premise of S2 is checked (X4). Residual not decided: equal canonical text implies equal node fields.",
   "loop-to-quantifier summarisation with polarity + taint + write-set classification", "DESIGN.md section 3 C07")
 
 claim("C10", "other",
@@ -53,7 +53,7 @@ claim("C04", "other",
 
 claim("C05", "other",
   "Narrow necessary conditions of 'the accepted language is the SPDX grammar': scanner/parser operator and token-role tables agree (G1, G3), keyword order (G2), every buffer rewrite keeps all unread input and every cursor advance covers only matched text (G4, linear entailment under inferred cursor invariants), acceptance only at end of input (G5), consumption implies error or progress (G6, abstract interpretation with a symbolic cursor), every listed id is readable (G7), precedence layering and parenthesis transparency (P1).",
-  "Language equality itself is NOT decided (e.g. which interleavings of '+', WITH, ':' are accepted). No recogniser is extracted and run.",
+  "G8/G8p: one '+' per license atom, decided by evaluating the extracted lookup plan on X++ for every listed id, and the parser's '+' probe is independent of the token's text. Language equality itself is NOT decided (e.g. which interleavings of WITH, ':' are accepted). No recogniser is extracted and run.",
   "writer/reader table agreement + linear entailment on cursor arithmetic + abstract interpretation of the token cursor", "DESIGN.md section 3 C05")
 
 claim("C09", "other",
@@ -68,15 +68,15 @@ claim("C02", "other",
 
 claim("C08", "other",
   "The scanner's id-normalisation plan is extracted from the SSA on every run and interpreted over the extracted tables (a finite evaluation of constants, nothing under /repo is executed): for every active id all four spellings are valid (Q1), for every listed id both spelling pairs denote interchangeable nodes (Q2: equal plus flag and equal id or same family and version group), the family lookup strips exactly the suffix the scanner rewrites (Q3). Exhaustive over all ~670 listed ids.",
-  "An unrecognised argument transform or guard in normalizeLicense makes the plan undecided (reported as a violation). Interchangeability inside arbitrary expressions relies on expansion and matching seeing only nodes (C01 X5, C07 W1, C02).",
+  "An unrecognised argument transform or guard in normalizeLicense makes the plan undecided (reported as a violation); guards are read off the path condition with boolean helpers inlined. X4 (verdict = exists alternative, forall term, exists allowed entry: matcher(term, entry), matchers write nothing) lifts node-level interchangeability to the verdict.",
   "decision-list extraction from SSA + exhaustive evaluation over constant tables", "DESIGN.md section 3 C08")
 
 claim("C14", "other",
-  "Narrow necessary conditions for 'no exponential family': no multiplicative recurrence inside a recursive cycle (C1), no recursive result computed twice on one path (C2), no left recursion in the token parser (C3). The cross product in expandAnd/appendTerms violates C1 on the current tree and is a recorded known finding; any other product or a second instance is still reported.",
+  "Narrow necessary conditions for 'no exponential family': no multiplicative recurrence inside a recursive cycle (C1), no recursive result computed twice on one path (C2), no re-traversal of a subtree by two members of one cycle of the resolved call graph (C2b), no left recursion in the token parser (C3), no cursor restore across a recursive production (C5). The cross product in expandAnd/appendTerms violates C1 on the current tree and is a recorded known finding; any other product or a second instance is still reported.",
   "A polynomial bound itself (loop bounds over runtime sizes, allocation volume) is NOT decided; scanner progress per iteration is not decided. Loop-nest degrees are reported as information only.",
   "recurrence-shape analysis over the call graph (product loops x recursive results) + left-recursion check", "DESIGN.md section 3 C14")
 
 claim("C15", "other",
-  "Where reported offsets come from and whether the text they index can differ from the caller's string: every offset-bearing message prints cursor + compensation (O1), every rewrite of the scan buffer books exactly the removed bytes (O2, linear entailment), the cited lexeme was read from the restored position (O3), cursor and compensation invariants are inductive (O4).",
-  "Relies on the linear facts proved by the bounds engine (Fourier-Motzkin over inferred invariants); messages are recognised by the constant fragment 'offset %d' in their format string.",
+  "Where reported offsets come from and whether the text they index can differ from the caller's string: every offset-bearing message prints cursor + compensation (O1), every rewrite of the scan buffer books exactly the removed bytes (O2, linear entailment), the cited lexeme was read from the restored position (O3), cursor and compensation invariants are inductive (O4), the scanned text is the caller's string (O5), returned errors originate in this call (O6).",
+  "Relies on the linear facts proved by the bounds engine (Fourier-Motzkin over inferred invariants); messages are recognised as a constant fragment 'offset %d' / 'offset ' + Itoa(n), directly, through printf-style wrappers or through offset-appending helpers. O5: the scan buffer is the caller's own string along every call chain; O6: every returned error was constructed in this call.",
   "provenance of message operands + linear entailment on cursor/compensation arithmetic", "DESIGN.md section 3 C15")
